@@ -27,6 +27,8 @@ type POResult struct {
 	Events   int
 	Asserts  int
 	Failed   []string // labels of assertion events violated in the model
+	FailedEv []*POEvent
+	KnownHit []string // known findings matched (and excluded) while answering this query
 	Script   string
 }
 
@@ -175,9 +177,15 @@ func (po *PO) quiescenceConstraints() []*smt.Term {
 		}
 		for _, e := range t.Events {
 			if e.Cut {
-				// executions that run into an unrolling bound are not maximal: excluded here,
-				// reported by the unwinding query
+				// executions that run into an unrolling bound are not maximal: they are excluded
+				// here as a whole (the bound must not even be reachable from an executed parent),
+				// and reported by the unwinding query
 				as = append(as, smt.Not(e.X))
+				for _, ed := range e.Edges {
+					if ed.From != nil {
+						as = append(as, smt.Not(smt.And(ed.From.X, ed.PCond)))
+					}
+				}
 				continue
 			}
 			var must *smt.Term
@@ -234,10 +242,15 @@ func (po *PO) quiescenceConstraints() []*smt.Term {
 // AssertGoal: some assertion event (optionally restricted by label prefix) executes with a
 // false condition.
 func AssertGoal(prefix string, final bool) func(po *PO) *smt.Term {
+	return AssertGoalExcl(prefix, final, nil)
+}
+
+// AssertGoalExcl ignores the assertion events listed in excl (known findings already reported).
+func AssertGoalExcl(prefix string, final bool, excl map[int]bool) func(po *PO) *smt.Term {
 	return func(po *PO) *smt.Term {
 		var alts []*smt.Term
 		for _, e := range po.allEvents() {
-			if e.Kind != "assert" || e.Cond == nil {
+			if e.Kind != "assert" || e.Cond == nil || excl[e.ID] {
 				continue
 			}
 			if e.T.Final != final {
@@ -392,10 +405,13 @@ func (po *PO) Solve(q POQuery, timeout time.Duration) POResult {
 		}
 		for n, e := range violVar {
 			if model[n] == 1 {
-				res.Failed = append(res.Failed, e.Label+" @"+e.Pos+" "+e.Stack)
+				res.FailedEv = append(res.FailedEv, e)
 			}
 		}
-		sort.Strings(res.Failed)
+		sort.Slice(res.FailedEv, func(i, j int) bool { return res.FailedEv[i].ID < res.FailedEv[j].ID })
+		for _, e := range res.FailedEv {
+			res.Failed = append(res.Failed, e.Label+" @"+e.Pos+" "+e.Stack)
+		}
 	}
 	return res
 }
